@@ -12,16 +12,14 @@ import c03gen as G3
 
 KNOWN_FANOUT = 'reference-fan-out-exponential'
 KNOWN_TEXTPATH = 'textpath-huge-path'
-KNOWN_FONT = 'stroked-text-huge-font-size'
 KNOWN_IMAGE = 'image-huge-size'
 KNOWN_TORIGIN = 'transform-origin-sign'
 KNOWN_ARC = 'path-arc-huge'
-# proposed in round 4, NOT registered in known_findings.txt (so they are reported as violations until the maintainer decides)
-KNOWN_QUAD = 'stroked-path-huge-quad'
+# svgtypes (external crate): registered in round 4
 KNOWN_TORIGIN_EXP = 'transform-origin-dangling-exponent'
-# narrower class for nested markers (red-team report, round 4): used once it is registered; until then a marker bomb that
-# exceeds the time budget is filed under reference-fan-out-exponential, whose registered text names markers
-KNOWN_MARKER = 'marker-expansion-bomb'
+# witnesses of fixed findings (fixes 0f46e14: nested marker instances are limited; 7272c32: no stroker for coordinates beyond
+# 1e18): must parse within the budget, whatever a class predicate says about the document
+MUST_PASS = ('C01-fanout-marker.svg', 'C01-marker-bomb-k14.svg', 'C01-stroked-quad-huge.svg', 'C01-stroked-text-huge-font.svg')
 
 # CPU-time budget of one Tree::from_data call: A + B * bytes (microseconds, thread CPU time measured inside the worker).
 # Noise floor measured over the whole corpus (1695 files) with 16 workers on a loaded machine (load average 60):
@@ -246,20 +244,6 @@ def _big(num, limit):
         return True
 
 
-def huge_font(data, options):
-    """text is present and a font size (attribute, style, CSS `font`, or the default font size option) is >= 1e25"""
-    t = _text(data)
-    if '<text' not in t:
-        return False
-    m = re.search(r'\bfs=([^;]+)', options or '')
-    if m and _big(m.group(1), 1e25):
-        return True
-    for m in re.finditer(r'font(?:-size)?\s*[=:]\s*"?([^";]*)', t):
-        if any(_big(n, 1e25) for n in G.NUM_RE.findall(m.group(1))):
-            return True
-    return False
-
-
 def huge_image(data):
     t = _text(data)
     for m in re.finditer(r'<image\b([^<>]*)>', t):
@@ -279,51 +263,6 @@ def origin_sign(data):
             if re.fullmatch(r'[+-]\.?|\.', tok):
                 return True
         if re.search(r'(?<![0-9eE.])[+-](?![0-9.])', m.group(1)):
-            return True
-    return False
-
-
-def marker_instances(data):
-    """lower bound of the number of instances of the most instantiated marker: W(m) = sum over the marker-start / -mid / -end
-    attributes that reference m of W(enclosing marker), 1 outside of markers (vertices per path are not counted)"""
-    t = _text(data)
-    stack = []                      # enclosing marker ids (None for other elements)
-    refs = {}                       # marker id -> list of enclosing marker (or None)
-    for tag in re.finditer(r'<(/?)([A-Za-z][A-Za-z0-9:]*)\b([^<>]*?)(/?)>', t):
-        close, name, attrs, selfc = tag.groups()
-        if close:
-            if stack:
-                stack.pop()
-            continue
-        idm = re.search(r'\bid="([^"]*)"', attrs)
-        cur = next((x for x in reversed(stack) if x is not None), None)
-        for r in re.findall(r'\bmarker-(?:start|mid|end)\s*[=:]\s*"?\s*url\(#([^)"]+)\)', attrs):
-            refs.setdefault(r, []).append(cur)
-        if not selfc:
-            stack.append(idm.group(1) if (name == 'marker' and idm) else None)
-    memo = {}
-
-    def W(m, depth):
-        if m is None:
-            return 1
-        if m in memo:
-            return memo[m]
-        if depth > 60:
-            return 1
-        memo[m] = 1                 # cycle guard (recursive markers are skipped by the converter)
-        memo[m] = min(max(sum(W(o, depth + 1) for o in refs.get(m, [])), 1), 10 ** 12)
-        return memo[m]
-    return max([W(m, 0) for m in refs] or [0])
-
-
-def quad_huge(data):
-    """a stroke is present and some path data has a quadratic segment (Q / T) and a coordinate of magnitude >= 1e18"""
-    t = _text(data)
-    if 'stroke' not in t:
-        return False
-    for m in re.finditer(r'\bd\s*=\s*"([^"]*)"', t):
-        d = m.group(1)
-        if re.search(r'[qQtT]', d) and any(_big(n, 1e18) for n in G.NUM_RE.findall(d)):
             return True
     return False
 
@@ -499,6 +438,18 @@ def run(ctx):
     ijobs = [(i, '-') for i in iso_idx] + [(i, rng.choice(G.OPTION_SETS[1:])) for i in iso_idx if inputs[i][1] == 'numsum' and rng.below(4) == 0]
     ctx.log("e2e inputs: %d documents, %d + %d + %d (document, options) jobs" % (len(inputs), len(jobs), len(hjobs), len(ijobs)))
 
+    # first input of every known class goes to the log (label, options), so that a class that stops firing on its witness but
+    # still fires elsewhere can be traced
+    _kov = ctx.known_or_violation
+    _first = {}
+
+    def _known_logged(cls, text, replay):
+        if cls not in _first:
+            _first[cls] = 1
+            ctx.log("known class %s: first input: %s (options %s, %s build)" % (cls, replay.get('label'), replay.get('options'), replay.get('profile')))
+        return _kov(cls, text, replay)
+    ctx.known_or_violation = _known_logged
+
     hist = {}
     outcomes = {}
     worst = {'release': (0, None), 'debug': (0, None)}
@@ -548,26 +499,19 @@ def run(ctx):
             return
         reported.add(sig)
         text = "%s on %s [%s]" % (bad, label, stream)
-        marker_cls = any(k.get('class') == KNOWN_MARKER for k in ctx.known)
-        if data is not None and marker_cls and ('CPU time' in bad or 'time limit' in bad or 'signal6' in bad or 'signal9' in bad) \
-                and marker_instances(data) >= 10000:
-            # nested markers with >= 10 000 instances of one marker: time, or the worker's 3 GiB address-space limit (abort)
-            ctx.known_or_violation(KNOWN_MARKER, text, replay)
+        if any(n in label for n in MUST_PASS):
+            ctx.violation(text + " (witness of a fixed finding: must pass)", replay)
         elif data is not None and ('CPU time' in bad or 'time limit' in bad) and fan_out(data) >= 10000:
             ctx.known_or_violation(KNOWN_FANOUT, text, replay)
         elif data is not None and ('time limit' in bad or 'CPU time' in bad or ('kurbo' in bad and 'shift left with overflow' in bad)) \
                 and textpath_huge(data):
             ctx.known_or_violation(KNOWN_TEXTPATH, text, replay)
-        elif data is not None and 'path_geometry.rs' in bad and 'tiny-skia-path' in bad and huge_font(data, o):
-            ctx.known_or_violation(KNOWN_FONT, text, replay)
         elif data is not None and 'size.rs' in bad and 'tiny-skia-path' in bad and huge_image(data):
             ctx.known_or_violation(KNOWN_IMAGE, text, replay)
         elif data is not None and 'transform_origin.rs' in bad and origin_sign(data):
             ctx.known_or_violation(KNOWN_TORIGIN, text, replay)
         elif data is not None and ('time limit' in bad or 'CPU time' in bad or 'signal6' in bad) and arc_huge(data):
             ctx.known_or_violation(KNOWN_ARC, text, replay)
-        elif data is not None and 'path_geometry.rs' in bad and 'tiny-skia-path' in bad and quad_huge(data):
-            ctx.known_or_violation(KNOWN_QUAD, text, replay)
         elif data is not None and 'transform_origin.rs' in bad and origin_dangling_exp(data):
             ctx.known_or_violation(KNOWN_TORIGIN_EXP, text, replay)
         else:
